@@ -619,9 +619,14 @@ fn check_imports(out: &mut Outcome, p: &SubPlan, refs: &SubRef, mi: usize, block
         // state; for such clauses only the existence of the declaration is judged here — the
         // block comparison (oracle B) still sees any influence of a neighbour on it.
         let exporter = p.set.get(&imp.from);
+        // (what a symbol IS comes from the generator's model of the exporting module; only when the
+        // exporter is not part of the set does the spelling have to do. A name in capitals and
+        // hyphens WITHOUT a digit is taken for a class by the compiler whatever it is — a rule of
+        // the backend, not judged; a type reference with a digit in it (T1, E164) is judged exactly)
         let special = imp.symbols.iter().any(|s| {
             s.contains("{}")
-                || s.chars().all(|c| c.is_uppercase() || c == '-' || c.is_ascii_digit())
+                || s.chars().all(|c| c.is_uppercase() || c == '-')
+                || (exporter.is_none() && s.chars().all(|c| c.is_uppercase() || c == '-' || c.is_ascii_digit()))
                 || exporter.is_some_and(|em| em.assigns.iter().any(|a| (&a.name == s || format!("{}{{}}", a.name) == *s) && matches!(a.kind, AKind::Class | AKind::Param)))
         });
         if special {
